@@ -2,8 +2,9 @@
    `code_small cs = true`): both are theorems now (Proof/RVWfAll.v) under boolean guards on the PROGRAM handed to the
    code generator (Sem/LabelGuard.v, Sem/WfGuard64.v, Sem/WfGuard.v):
      labels_guard    the label texts are unambiguous (known finding label-collision-name-digits outside it)
-     imm_guard_rv    literals are 64-bit values (`LI`), a type declares at most 512 xtors (`ADDI X1, Xt, 4k`: a real
-                     limit of the back end)
+     imm_guard_rv    literals are 64-bit values (`LI`), a type declares fewer than 2^61 xtors (the table dispatch
+                     `ADDI X1, Xt, 4k` was unencodable beyond 511 xtors: a finding, repaired - a larger offset goes
+                     through `LI`)
      size_guard      cg_bound_defs <= 2^40 (the code fits the image)
    `calls_guard` follows from the linear discipline (Proof/X86WfCor.lin_check_calls_guard). *)
 From Coq Require Import List ZArith NArith String Bool Lia.
@@ -65,22 +66,42 @@ Proof.
   - vm_compute. discriminate.
 Qed.
 
-(* ---------- the xtor bound cannot be dropped: a type with 514 destructors, invoke of the last one ---------- *)
+(* ---------- regression: the table dispatch beyond 511 xtors ----------
+   A type with 514 destructors, invoke of the last one (the stage-level form of the finding "tag dispatch immediate",
+   docs/C14.md).  The code generator BEFORE the repair (old_r_add_and_jump) emits `ADDI X1, X5, 2052` and fails asm_wf
+   although the program satisfies every hypothesis of the theorem; the repaired one emits `LI X1, 2052; ADD X1, X5, X1`. *)
+Definition old_rv_backend : backend rcode rtemp := {|
+  b_label := b_label rv_backend; b_mark := b_mark rv_backend; b_jump := b_jump rv_backend;
+  b_jump_label := b_jump_label rv_backend; b_jump_label_fixed := b_jump_label_fixed rv_backend;
+  b_jcc2 := b_jcc2 rv_backend; b_jcc1 := b_jcc1 rv_backend;
+  b_load_immediate := b_load_immediate rv_backend; b_load_label := b_load_label rv_backend;
+  b_add_and_jump := old_r_add_and_jump;
+  b_arith := b_arith rv_backend; b_mov := b_mov rv_backend; b_print := b_print rv_backend;
+  b_erase := b_erase rv_backend; b_share_n := b_share_n rv_backend; b_store := b_store rv_backend; b_load := b_load rv_backend;
+  b_contains_spill_edge := b_contains_spill_edge rv_backend;
+  b_store_temporary := b_store_temporary rv_backend; b_restore_temporary := b_restore_temporary rv_backend;
+  b_temp := b_temp rv_backend; b_return1 := b_return1 rv_backend; b_jump_length := b_jump_length rv_backend;
+  b_temporary_from_position := b_temporary_from_position rv_backend; b_tcompare := b_tcompare rv_backend |}.
+Definition old_rv_compile (p : prog) (lc : N) : Backend.res (list rcode * nat * N) :=
+  if prog_has_print p then Backend.Err "not implemented in RISC-V backend"%string else compile old_rv_backend p lc.
 Definition many_xtors (n : nat) : list xtorsig := map (fun k => mkx ("d"%string, N.of_nat k) []) (seq 0 n).
 Definition wide_type_prog (n : nat) : prog :=
   let big : ident := ("Big"%string, 0%N) in
   let o : ident := ("o"%string, 1%N) in
   mkp [mkd ("use"%string, 0%N) [mkb o Cns (Decl big)] (Invoke o ("d"%string, N.of_nat (n - 1)) (Decl big) [])]
       [mkt big (many_xtors n)] 1%N.
-Lemma asm_wf_xtors_needed :
+Lemma asm_wf_xtors_regression :
   let p := wide_type_prog 514 in
-  labels_guard p = true /\ lin_check_prog p = true /\
-  imm_guardP 514 lit64 p = true /\ imm_guard_rv p = false /\
-  exists cs n lc', rv_compile p 0 = Backend.Ok (cs, n, lc') /\
-    asm_wf cs = Some "operand not encodable in its instruction form"%string /\
-    In (ADDI TEMP 5%N 2052) cs.
+  wf_guard_rv p = true /\ old_imm_guard_rv p = false /\
+  (exists cs n lc', old_rv_compile p 0 = Backend.Ok (cs, n, lc') /\
+     asm_wf cs = Some "operand not encodable in its instruction form"%string /\
+     In (ADDI TEMP 5%N 2052) cs) /\
+  (exists cs n lc', rv_compile p 0 = Backend.Ok (cs, n, lc') /\ asm_wf cs = None /\
+     In (LI TEMP 2052) cs /\ In (ADD TEMP 5%N TEMP) cs).
 Proof.
-  cbv zeta. repeat (split; [vm_compute; reflexivity|]).
-  eexists _, _, _. split; [vm_compute; reflexivity|]. split; [vm_compute; reflexivity|].
-  vm_compute. repeat (first [left; reflexivity|right]).
+  cbv zeta. split; [vm_compute; reflexivity|]. split; [vm_compute; reflexivity|]. split.
+  - eexists _, _, _. split; [vm_compute; reflexivity|]. split; [vm_compute; reflexivity|].
+    vm_compute. repeat (first [left; reflexivity|right]).
+  - eexists _, _, _. split; [vm_compute; reflexivity|]. split; [vm_compute; reflexivity|].
+    split; vm_compute; repeat (first [left; reflexivity|right]).
 Qed.
